@@ -615,3 +615,141 @@ def multistream_guard(ctx):
                               'testing self.%s: a single-stream reader consumes/needs trailing data' % flag)
     if n == 0:
         ctx.anchor_missing('call reading past the footer')
+
+
+UNIT_CTORS = (('XZWriter', 'new'), ('LZIPWriter', 'new'), ('LZMA2Writer', 'new'), ('LZMA2WriterMT', 'new'), ('LZIPWriterMT', 'new'))
+
+
+@rule('OPT-CLAMP', ['C18', 'C19'], floor=5)
+def opt_clamp(ctx):
+    """The unit size every splitting writer stores is raised to the dictionary size: in each of the
+    five constructors that take a block/member/chunk size the stored value derives from
+    `max(option, dict_size)`."""
+    F = ctx.facts
+    for adt, name in UNIT_CTORS:
+        fs = [f for f in methods_of(F, adt) if f.name == name and not (f.impl and f.impl.get('trait'))]
+        if not fs:
+            ctx.anchor_missing('%s::%s' % (adt, name))
+            continue
+        f = fs[0]
+        prov = Prov(f)
+        good = None
+        for bi, t, c in f.calls():
+            if c.name == 'max' and len(t['args']) == 2:
+                a, b = prov.operand(t['args'][0], 0, '%d:T' % bi), prov.operand(t['args'][1], 0, '%d:T' % bi)
+                def is_dict(e):
+                    return any(x[0] == 'field' and x[2] == 'dict_size' for x in expr_walk(e)) or \
+                        any(x[0] == 'local' and x[2] == 'dict_size' for x in expr_walk(e))
+                def is_unit(e):
+                    return any((x[0] == 'call' and 'NonZero' in x[1] and x[1].endswith('::get')) or
+                               (x[0] == 'field' and x[2] in ('chunk_size', 'member_size', 'block_size')) or
+                               (x[0] == 'param') or (x[0] == 'local') for x in expr_walk(e))
+                if (is_dict(a) and is_unit(b)) or (is_dict(b) and is_unit(a)):
+                    good = bi
+        # closures (Option::map(|s| s.get().max(dict))) belong to the constructor
+        for cl in F.closures_of(f):
+            pc = Prov(cl)
+            for bi, t, c in cl.calls():
+                if c.name == 'max' and len(t['args']) == 2:
+                    good = ('closure', bi) if good is None else good
+        key = '%s::%s:unit-size-raised-to-dict' % (adt, name)
+        def top_is_dict(e):
+            while e[0] in ('cast', 'ref', 'deref'):
+                e = e[2] if e[0] == 'cast' else e[1]
+            return (e[0] == 'field' and e[2] == 'dict_size') or (e[0] == 'local' and e[2] == 'dict_size')
+        mins = [bi for bi, t, c in f.calls() if c.name == 'min' and any(
+            top_is_dict(prov.operand(a, 0, '%d:T' % bi)) for a in t['args'])]
+        if good is not None and not mins:
+            ctx.ok(key, f.loc(good if isinstance(good, int) else 0), 'unit size = max(option, dict_size)')
+        else:
+            ctx.violation(key, f.loc(0), 'the configured unit size is not raised to the dictionary size with `max(option, dict_size)`%s: units '
+                          'smaller than the dictionary waste memory or (for LZIP/MT) break the size contract' % (
+                              ' (a `min` with dict_size is used instead)' if mins else ''))
+
+
+@rule('FORMULA-TWIN', ['C02', 'C19'], floor=3)
+def formula_twin(ctx):
+    """The XZ writer and reader compute the LZMA2 dictionary size of a property byte p by the same
+    formula ((2 | (p & 1)) << (p / 2 + 11), p = 40 -> 0xFFFF_FFFF); the writer picks the first p whose
+    size is >= the requested size (rounds up) and rejects sizes below 4096."""
+    from lzlint.intervals import _strip
+    F = ctx.facts
+    w = [f for f in methods_of(F, 'XZWriter') if f.d.get('output', '').startswith('std::result::Result<u8') and f.loops()]
+    if not w:
+        return ctx.anchor_missing('XZWriter dictionary-size property encoder (-> Result<u8>, loop)')
+    wf = w[0]
+    pw = Prov(wf)
+    # writer: the shifted expression and the comparison that accepts p
+    shl_w = None
+    accept = None
+    for b in wf.reachable:
+        t = wf.blocks[b]['term']
+        if t['k'] == 'switch':
+            cond = pw.operand(t['discr'], 0, '%d:T' % b)
+            nc = norm_cmp(cond, True) if cond[0] in ('bin', 'un') else None
+            if nc and any(x[0] == 'bin' and x[1].startswith('Shl') for x in expr_walk(cond)):
+                accept = nc
+                for x in expr_walk(cond):
+                    if x[0] == 'bin' and x[1].startswith('Shl'):
+                        shl_w = x
+    rf = None
+    shl_r = None
+    for f in F.fns:
+        if f.self_adt and last_seg(f.self_adt) == 'BlockHeader':
+            pr = Prov(f)
+            for bi, b in enumerate(f.blocks):
+                for si, s in enumerate(b['stmts']):
+                    if s['k'] == 'assign' and s['rv']['r'] == 'bin' and s['rv']['op'].startswith('Shl'):
+                        e = pr.rvalue(s['rv'], 0, '%d:%d' % (bi, si))
+                        if any(x[0] == 'bin' and x[1] == 'BitOr' for x in expr_walk(e)) and any(x[0] == 'const' and x[2] == 11 for x in expr_walk(e)):
+                            rf, shl_r = f, e
+    if shl_w is None or shl_r is None:
+        return ctx.anchor_missing('dictionary size formula on both sides (writer %s, reader %s)' % (bool(shl_w), bool(shl_r)))
+
+    def shape(e):
+        """Structure of the formula with the property-byte leaf abstracted to P."""
+        e = _strip(e)
+        def go(x):
+            if not isinstance(x, tuple):
+                return x
+            if x[0] == 'const':
+                return ('k', x[2])
+            if x[0] == 'bin':
+                return (x[1], go(x[2]), go(x[3]))
+            if x[0] in ('local', 'param', 'index', 'call', 'field'):
+                return 'P'
+            return x[0]
+        return go(e)
+    sw, sr = shape(shl_w), shape(shl_r)
+    if sw == sr:
+        ctx.ok('lzma2-dict-prop:formula', wf.loc(0), 'both sides compute %s' % (sw,))
+    else:
+        ctx.violation('lzma2-dict-prop:formula', wf.loc(0), 'writer computes %s, reader computes %s for the same property byte: the header '
+                      'declares a different dictionary than the decoder allocates' % (sw, sr))
+    # rounding direction: accept p when size >= requested
+    if accept is not None:
+        op, a, b = accept
+        a_is_size = any(x[0] == 'bin' and x[1].startswith('Shl') for x in expr_walk(a))
+        # normalised forms: Le(requested, size) or Lt(requested, size)[strict: still rounds up] ; Le(size, requested) would round down
+        if (op in ('Le',) and not a_is_size) or (op == 'Lt' and not a_is_size):
+            ctx.ok('lzma2-dict-prop:rounds-up', wf.loc(0), 'first property whose size is >= the requested dictionary size')
+        else:
+            ctx.violation('lzma2-dict-prop:rounds-up', wf.loc(0), 'the writer accepts a property whose dictionary size is smaller than the '
+                          'requested one (%s %s): the decoder gets a smaller window than the encoder used, distances beyond it fail' % (
+                              op, 'size first' if a_is_size else 'requested first'))
+    else:
+        ctx.violation('lzma2-dict-prop:rounds-up', wf.loc(0), 'cannot find the acceptance comparison')
+    # lower bound and the 40 <-> 0xFFFFFFFF special case
+    lows = []
+    for b in wf.reachable:
+        t = wf.blocks[b]['term']
+        if t['k'] == 'switch':
+            cond = pw.operand(t['discr'], 0, '%d:T' % b)
+            nc = norm_cmp(cond, True) if cond[0] in ('bin', 'un') else None
+            if nc and nc[0] == 'Lt' and nc[2][0] == 'const' and nc[1][0] == 'param':
+                lows.append(nc[2][2])
+    if 4096 in lows:
+        ctx.ok('lzma2-dict-prop:lower-bound', wf.loc(0), 'dictionary sizes below 4096 are rejected')
+    else:
+        ctx.violation('lzma2-dict-prop:lower-bound', wf.loc(0), 'the writer no longer rejects dictionary sizes below 4 KiB (bounds found: %s): '
+                      'the smallest encodable size is 4 KiB, so the header would declare a different size' % lows)
